@@ -19,6 +19,7 @@ type harnessState struct {
 	permMaps   map[*omap][]int
 	fps        map[string]*footprint
 	fpCur      *footprint
+	limitLabel string // a path cut at a per-path budget (instructions, call depth) is a violation of this label (C20: hang / stack exhaustion)
 }
 
 func (x *Explorer) resetHarnessState() {
@@ -28,6 +29,7 @@ func (x *Explorer) resetHarnessState() {
 	x.permMaps = map[*omap][]int{}
 	x.fps = map[string]*footprint{}
 	x.fpCur = nil
+	x.limitLabel = ""
 }
 
 // mapIter returns the iterator for a map; maps marked order-relevant are visited
@@ -150,6 +152,12 @@ func init() {
 			for _, c := range args[1].([]value) {
 				x.allocCands = append(x.allocCands, int64(c.(int)))
 			}
+			return nil
+		},
+		// LimitIsViolation(label): from here on, exhausting the per-path instruction / call-depth budget counts as a
+		// violation of label (the input makes the code under test loop or recurse without bound)
+		"LimitIsViolation": func(fr *frame, args []value) value {
+			fr.i.x.limitLabel = args[0].(string)
 			return nil
 		},
 		"OrderRelevant": func(fr *frame, args []value) value {
